@@ -629,3 +629,139 @@ func VP_C04_big_roundtrip() {
 	}
 	vp.Cover("end")
 }
+
+// integer literals around every range limit: sign, decimal digits and a type
+// suffix, alone or as an array element / compound value. In range: the
+// exact value with the suffix's tag. Out of range for the suffix's type: an
+// error (or, for a lone token, the raw text as a string) - never a numeric tag
+// with a wrapped value.
+func VP_C04_int_range() {
+	// all 3-digit and (thorough) 5-digit magnitudes; around 2^31, 2^32 and 2^63 a
+	// concrete prefix with two arbitrary final digits (decimal chains of 10 and
+	// 19 symbolic digits are out of the solver's reach: DESIGN 1)
+	shapes := []struct {
+		prefix string
+		k      int
+	}{{"", 3}, {"21474836", 2}, {"42949672", 2}, {"92233720368547758", 2}, {"184467440737095516", 2}, {"", 5}}
+	sh := shapes[vp.Choice(len(shapes)-1+vp.Tier())]
+	suffix := []string{"b", "s", "", "L"}[vp.Choice(4)]
+	neg := vp.Choice(2) == 1
+	digits := append([]byte(sh.prefix), vp.Bytes(sh.k)...)
+	var v, lim uint64 // magnitude, saturating
+	sat := false
+	for _, c := range digits {
+		vp.Assume(c >= '0' && c <= '9')
+		if v > (1<<63)/10+1 {
+			sat = true
+		}
+		v = v*10 + uint64(c-'0')
+	}
+	tag := byte(TagInt)
+	switch suffix {
+	case "b":
+		tag, lim = TagByte, 1<<7
+	case "s":
+		tag, lim = TagShort, 1<<15
+	case "":
+		tag, lim = TagInt, 1<<31
+	default:
+		tag, lim = TagLong, 1<<63
+	}
+	inRange := !sat && (v < lim || (neg && v == lim))
+	lit := string(digits) + suffix
+	if neg {
+		lit = "-" + lit
+	}
+	wrap := vp.Choice(3)
+	text := lit
+	switch wrap {
+	case 1:
+		if tag == TagShort {
+			text = "[" + lit + "]"
+		} else {
+			text = "[" + map[byte]string{TagByte: "B", TagInt: "I", TagLong: "L"}[tag] + ";" + lit + "]"
+		}
+	case 2:
+		text = "{a:" + lit + "}"
+	}
+	vp.SizeBound(64)
+	m := StringifiedMessage(text)
+	var w vpBuf
+	err := m.MarshalNBT(&w)
+	val := int64(v)
+	if neg {
+		val = -val
+	}
+	want := vpIntBytes(tag, val)
+	switch wrap {
+	case 0:
+		if inRange {
+			vp.Assert(err == nil && m.TagType() == tag && string(w.b) == string(want), "in-range integer literal converts exactly")
+		} else {
+			vp.Assert(err != nil || m.TagType() == TagString, "out-of-range integer literal is not a number")
+		}
+	case 1:
+		if inRange {
+			hdr := []byte{0, 0, 0, 1}
+			if tag == TagShort {
+				hdr = []byte{TagShort, 0, 0, 0, 1}
+			}
+			vp.Assert(err == nil && string(w.b) == string(append(hdr, want...)), "in-range integer literal converts exactly")
+		} else {
+			vp.Assert(err != nil, "out-of-range integer literal is not a number")
+		}
+	default:
+		if inRange {
+			ref := append(append(vpTagHdr(tag, "a"), want...), 0)
+			vp.Assert(err == nil && string(w.b) == string(ref), "in-range integer literal converts exactly")
+		} else if err == nil {
+			// accepted: the member must then be the raw text as a string
+			ref := append(append(vpTagHdr(TagString, "a"), vpStr(lit)...), 0)
+			vp.Assert(string(w.b) == string(ref), "out-of-range integer literal is not a number")
+		}
+	}
+	vp.Cover("end")
+}
+
+// conversion is a function of the text, not of what was converted before in the
+// process (pooled scratch buffers, caches): after any text of 2..5 (thorough 2..7) bytes from
+// a list-heavy alphabet - accepted or rejected at any point - a fixed valid text
+// of each container kind converts to its reference bytes.
+func VP_C04_history() {
+	n := vp.Choice(4+2*vp.Tier()) + 2
+	first := vp.Bytes(n)
+	alphabet := "[],;1bBI x"
+	if vp.Tier() == 1 {
+		alphabet = "[]{},;:1bBIL x\""
+	}
+	for _, c := range first {
+		ok := false
+		for i := 0; i < len(alphabet); i++ {
+			ok = ok || c == alphabet[i]
+		}
+		vp.Assume(ok)
+	}
+	vp.Assume(first[0] == '[' || first[0] == '{')
+	vp.SizeBound(n + 4)
+	var w0 vpBuf
+	m0 := StringifiedMessage(first)
+	_ = m0.MarshalNBT(&w0) // whatever it says
+	var text string
+	var tag byte
+	var ref []byte
+	switch vp.Choice(4) {
+	case 0:
+		text, tag, ref = "[7,8]", TagList, []byte{TagInt, 0, 0, 0, 2, 0, 0, 0, 7, 0, 0, 0, 8}
+	case 1:
+		text, tag, ref = "[B;1b,2b]", TagByteArray, []byte{0, 0, 0, 2, 1, 2}
+	case 2:
+		text, tag, ref = "{a:[L;5L]}", TagCompound, append(append(vpTagHdr(TagLongArray, "a"), 0, 0, 0, 1, 0, 0, 0, 0, 0, 0, 0, 5), 0)
+	default:
+		text, tag, ref = "[[1b],[]]", TagList, []byte{TagList, 0, 0, 0, 2, TagByte, 0, 0, 0, 1, 1, TagEnd, 0, 0, 0, 0}
+	}
+	m := StringifiedMessage(text)
+	var w vpBuf
+	vp.Assert(m.MarshalNBT(&w) == nil, "a valid text converts whatever was converted before")
+	vp.Assert(m.TagType() == tag && string(w.b) == string(ref), "conversion does not depend on earlier conversions")
+	vp.Cover("end")
+}
